@@ -1055,6 +1055,57 @@ theorem loader_probing_verdict_eq_build (combine : Nat → Word → Nat)
       by rw [hrr]; simp, fun _ => hf, fun _ => hrr, ?_⟩
     intro _ hnf; rw [hf] at hnf; simp at hnf
 
+/-- the lines of a parsed file come in section order (the `hsorted` hypothesis of `loader_probing_verdict_eq_build` holds) -/
+theorem parsed_lines_sorted (maxO : Nat) (multOk : Bool) (s : Bytes) (p : LParsed) (u : Rat)
+    (hp : LoaderArpa.parse maxO multOk s = .ok p) :
+    (KV.ProbingBuild.ngramLines (p.toArpa u)).Pairwise (fun x y => x.1.length ≤ y.1.length) := by
+  have wf := accepted_wellformed maxO multOk s p hp
+  obtain ⟨uni, rest, hg, _, _⟩ := unigrams_cover maxO multOk s p hp
+  have hsec : ∀ (j : Nat) (hj : j < rest.length), ∀ le ∈ rest[j], le.1.length = j + 2 := by
+    intro j hj le hle
+    have := wf.2.2.2.2.2.2 (j + 1) rest[j] (by rw [hg]; simp [List.getElem?_eq_getElem hj]) le hle
+    exact this.len
+  have hkeys := parsed_ngramLines_keys maxO multOk s p u hp
+  have hdrop : (p.grams.drop 1) = rest := by rw [hg]; rfl
+  rw [hdrop] at hkeys
+  have : ((KV.ProbingBuild.ngramLines (p.toArpa u)).map (·.1)).Pairwise (fun a b => a.length ≤ b.length) := by
+    rw [hkeys, List.map_flatten, List.pairwise_flatten]
+    constructor
+    · intro l hl
+      obtain ⟨es, hes, rfl⟩ := List.mem_map.mp hl
+      obtain ⟨j, hj, hget⟩ := List.getElem_of_mem hes
+      rw [List.pairwise_map, List.pairwise_iff_forall_sublist]
+      intro x y hxy
+      have hx : x ∈ es := hxy.subset (by simp)
+      have hy : y ∈ es := hxy.subset (by simp)
+      rw [← hget] at hx hy
+      rw [hsec j hj x hx, hsec j hj y hy]
+      exact Nat.le_refl _
+    · rw [List.pairwise_map, List.pairwise_iff_getElem]
+      intro i j hi hj hij x hx y hy
+      obtain ⟨lx, hlx, rfl⟩ := List.mem_map.mp hx
+      obtain ⟨ly, hly, rfl⟩ := List.mem_map.mp hy
+      rw [hsec i hi lx hlx, hsec j hj ly hly]
+      omega
+  rwa [List.pairwise_map] at this
+
+/-- `loader_probing_verdict_eq_build` with the section-order hypothesis discharged (`parsed_lines_sorted`): ok ⇔ ok and never
+diverges, for every parsed file with distinct n-grams -/
+theorem loader_probing_ok_iff_build_ok (combine : Nat → Word → Nat)
+    (inj : ∀ k1 k2 : List Word, KV.ProbingLM.hashOf combine k1 = KV.ProbingLM.hashOf combine k2 → k1 = k2)
+    (maxO : Nat) (multOk : Bool) (s : Bytes) (p : LParsed) (u : Rat) (b : Nat → Nat) (buckets : List Nat)
+    (hp : LoaderArpa.parse maxO multOk s = .ok p)
+    (hnd : ((p.toArpa u).entries.map (·.1)).Nodup)
+    (hpos : ∀ i, 0 < buckets.getD i 1)
+    (hb : ∀ k, 2 ≤ k → k < p.order → buckets.getD (k - 2) 1 = b (p.counts.getD (k - 1) 0))
+    (htop : ((KV.ProbingBuild.ngramLines (p.toArpa u)).filter (fun q => q.1.length == p.order)).length < buckets.getD (p.order - 2) 1) :
+    KV.ProbingBuild.build combine false (p.toArpa u) p.vocab.length buckets u ≠ .error .diverge ∧
+    ((∃ st, KV.ProbingBuild.build combine false (p.toArpa u) p.vocab.length buckets u = .ok st) ↔
+      buildCheck .probing b p = .ok ()) := by
+  have h := loader_probing_verdict_eq_build combine inj maxO multOk s p u b buckets hp hnd
+    (parsed_lines_sorted maxO multOk s p u hp) hpos hb htop
+  exact ⟨h.1, h.2.1⟩
+
 /-! ## no index leaves its region -/
 
 /-- `BitPacked::BaseSize(entries, max_vocab, remaining_bits)` with `total_bits = RequiredBits(max_vocab) + remaining_bits` -/
